@@ -39,6 +39,17 @@ def show(word):
 
 # ------------------------------------------------------------------ escapes (E5)
 
+def multipass(ctx, rule, e, what):
+    if e.written is not None:
+        wit = ('%s: the text %r (an escaped backslash, then %r) denotes %r; the reader rewrites %r first and returns %s'
+               % (what, e.written, e.written[2:], e.single, e.written[1:], e.multi))
+    else:
+        wit = '%s: %s' % (what, e.text)
+    ctx.violation(rule, 'hszinc/zincparser.py::_unescape', norm(e.node), wit,
+                  'escape decoding is not one left-to-right pass (%s): a sequence is recognised where the scan would be '
+                  'in the middle of another escape' % e.text, file='hszinc/zincparser.py', line=e.node.lineno, engine='E5')
+
+
 def escape_pair(ctx, rule, which, check_spec=False):
     """writer pipeline `dump_<which>` vs reader token regex + _unescape.  which: 'str' | 'uri'."""
     m = ctx.model
@@ -50,6 +61,9 @@ def escape_pair(ctx, rule, which, check_spec=False):
         g = G.grammar_of(m, 'zincparser')
         char_el = g.get('hs_%sChar' % which)
         whole_el = g.get('hs_%s' % which)
+    except T.MultiPass as e:
+        multipass(ctx, rule, e, 'parse(dump(%s))' % ('a Uri' if which == 'uri' else 'a string'))
+        return None
     except (Unsupported, AnalysisError) as e:
         ctx.error(rule, '%s: %s' % (fname, e))
         return None
@@ -608,7 +622,13 @@ def version_threading(ctx, rule, modname):
             ok_values = {'version'} if in_scope else set()
             for g in gridp:
                 ok_values |= {'%s.version' % g, '%s._version' % g}
-            if passed in ok_values or (passed and passed.endswith(('.version', '._version'))):
+            if passed is not None and passed not in ok_values:
+                passed = resolve_local(f, passed, params=ok_values)
+            verdict = version_source(passed, ok_values) if passed is not None else None
+            if verdict == 'unknown':
+                ctx.error(rule, '%s:%d %s passes version=%s to %s: source of that value not recognised; cannot decide'
+                          % (F, n.lineno, k, passed, callee))
+            elif verdict in ('ok', 'nearest'):
                 ctx.ob(rule, '%s -> %s passes the version on (%s)' % (k, callee, passed), True, '%s:%d' % (F, n.lineno))
             elif passed is None:
                 ctx.violation(rule, '%s::%s' % (F, k), norm(call)[:160],
@@ -624,6 +644,93 @@ def version_threading(ctx, rule, modname):
                               '%s passes version=%s to %s' % (k, passed, callee), file=F, line=n.lineno, engine='E7')
     ctx.count('calls of version-sensitive functions (%s)' % modname, n_calls)
     ctx.floor('calls of version-sensitive functions (%s)' % modname, n_calls, 8)
+
+
+def resolve_local(fn, text, params=(), depth=4):
+    """follow `name = expr` single assignments of fn; returns the text of the defining expression"""
+    for _ in range(depth):
+        if text in params or not text.isidentifier():
+            return text
+        defs = [st for st in ast.walk(fn) if isinstance(st, ast.Assign) and len(st.targets) == 1
+                and isinstance(st.targets[0], ast.Name) and st.targets[0].id == text]
+        if len(defs) != 1:
+            return text
+        text = norm(defs[0].value)
+    return text
+
+
+def version_source(text, ok_values=()):
+    """'ok': the version of the grid/context itself; 'bad': a substituted version; 'unknown'"""
+    if text in ok_values or text.endswith(('.version', '._version')):
+        return 'ok'
+    import re as _re
+    mo = _re.match(r'^Version\.nearest\((.+)\)$', text)
+    if (mo and version_source(mo.group(1), ok_values) == 'ok') or text.endswith('.nearest_version'):
+        return 'nearest'
+    if 'nearest' in text or 'LATEST_VER' in text or 'VER_' in text or text.startswith(('Version(', "'", '"')):
+        return 'bad'
+    return 'unknown'
+
+
+def header_version(ctx, rule, modname):
+    """the version written into the document header is the grid's own version (not the nearest supported one,
+    not a constant): a grid of version 2.5 must come back as 2.5."""
+    m = ctx.model
+    F = 'hszinc/%s.py' % modname
+    try:
+        if modname == 'zincdumper':
+            fn = m.func(modname, 'dump_grid')
+            g = fn.args.args[0].arg
+            srcs = []
+            for n in ast.walk(fn):
+                if isinstance(n, ast.BinOp) and isinstance(n.op, ast.Mod) and isinstance(n.left, ast.Constant) \
+                        and isinstance(n.left.value, str) and n.left.value.startswith('ver:'):
+                    v = n.right
+                    while isinstance(v, ast.Call) and norm(v.func) in ('dump_str', 'str', 'six.text_type') and v.args:
+                        v = v.args[0]
+                    srcs.append((n, norm(v)))
+        else:
+            fn = m.func(modname, '_dump_grid_to_json')
+            g = fn.args.args[0].arg
+            dm = m.func(modname, 'dump_meta')
+            stores = [st for st in ast.walk(dm) if isinstance(st, ast.Assign) and len(st.targets) == 1
+                      and isinstance(st.targets[0], ast.Subscript) and norm(st.targets[0].slice) == "'ver'"]
+            if len(stores) != 1:
+                raise AnalysisError('dump_meta: %d stores of the ver key' % len(stores))
+            v = stores[0].value
+            while isinstance(v, ast.Call) and norm(v.func) in ('str', 'six.text_type') and v.args:
+                v = v.args[0]
+            inner = resolve_local(dm, norm(v), params=('version',))
+            if inner != 'version':
+                raise AnalysisError('dump_meta writes ver from `%s`' % inner)
+            srcs = []
+            for n in ast.walk(fn):
+                if isinstance(n, ast.Call) and norm(n.func) == 'dump_meta':
+                    kw = {k.arg: k.value for k in n.keywords}
+                    if 'grid' in kw and 'version' in kw:
+                        srcs.append((n, norm(kw['version'])))
+                    elif 'grid' in kw:
+                        srcs.append((n, 'LATEST_VER (default)'))
+    except AnalysisError as e:
+        ctx.error(rule, 'header version (%s): %s' % (modname, e))
+        return
+    if len(srcs) != 1:
+        ctx.error(rule, 'header version (%s): %d candidate sites' % (modname, len(srcs)))
+        return
+    node, text = srcs[0]
+    ok_values = {'%s.version' % g, '%s._version' % g}
+    text = resolve_local(fn, text, params=ok_values)
+    verdict = version_source(text, ok_values)
+    if verdict == 'ok':
+        ctx.ob(rule, '%s: the header carries the grid\'s own version (%s)' % (modname, text), True, '%s:%d' % (F, node.lineno))
+    elif verdict in ('bad', 'nearest'):
+        ctx.violation(rule, '%s::%s' % (F, fn.name), norm(node)[:160],
+                      'a grid of version 2.5 (parsed from ver:"2.5") is written with the header version taken from `%s`: it '
+                      'comes back as another version, so ZINC->JSON->ZINC is not the identity' % text,
+                      'the document header is written from %s instead of the grid\'s own version' % text, file=F,
+                      line=node.lineno, engine='E7')
+    else:
+        ctx.error(rule, 'header version (%s): source `%s` not recognised; cannot decide' % (modname, text))
 
 
 def _callee_name(n):
